@@ -4,12 +4,13 @@ usage: store_seed.py <ID> <suffix> <property> <caught_by_rule> <also,comma|-> <w
 import json, os, shutil, sys
 ID, suf, prop, rule, also, what, needs, hist = sys.argv[1:9]
 src = "/tmp/seed_out/%s" % ID
-dst = "/verif/seeded/%s-%s" % (ID, suf)
+name = ID[:-1] if ID.endswith("b") and suf == "b" else ID
+dst = "/verif/seeded/%s-%s" % (name, suf)
 os.makedirs(dst, exist_ok=True)
 for f in ("patch.diff", "demo.cpp", "notes.md", "demo.sh"):
     if os.path.isfile(os.path.join(src, f)):
         shutil.copy(os.path.join(src, f), os.path.join(dst, f))
-meta = {"id": "%s-%s" % (ID, suf), "property": prop, "what": what, "needs_to_manifest": needs,
+meta = {"id": "%s-%s" % (name, suf), "property": prop, "what": what, "needs_to_manifest": needs,
         "confirmed": "tools/confirm_seed.sh %s: patch applied to a clean isolated worktree of /repo HEAD (/tmp/wt_confirm), library and tests rebuilt, 61/61 tests pass with the change (fresh kernel cache); "
                      "demo.cpp built against that tree FAILs (exit 1) and built against /repo/_build PASSes (exit 0); patch then applied to /repo, checks run, patch reverted" % ID,
         "author": "independent sub-agent given only the property text and its own worktree",
